@@ -64,7 +64,7 @@ def direct():
         m = registry(case['logic']).Model()
         out = dict(err=None)
         try:
-            with time_limit(10):
+            with time_limit(4):
                 for i, op in enumerate(case['ops']):
                     apply_op(m, op)
                 m.finish()
